@@ -146,14 +146,14 @@ def pan (s1 : MState) : Api.R := (s1, .panic)
 /-- the same command as a key transaction -/
 def form (now : Int) : Cmd → TxForm
   | get k => ⟨false, none, .bytes none, pan, decGet, k⟩
-  | set k v keep => ⟨true, some .strNil, .unit, pan, decSet k v keep, k⟩
+  | set k v keep => ⟨true, some (.str []), .unit, pan, decSet k v keep, k⟩
   | setXX k v keep => ⟨true, none, .bool false, pan, decSetXX k v keep, k⟩
-  | getSet k v => ⟨true, some .strNil, .unit, pan, decGetSet k v, k⟩
-  | append k v => ⟨true, some .strNil, .unit, pan, decAppend k v, k⟩
+  | getSet k v => ⟨true, some (.str []), .unit, pan, decGetSet k v, k⟩
+  | append k v => ⟨true, some (.str []), .unit, pan, decAppend k v, k⟩
   | strLen k => ⟨false, none, .int 0, pan, decStrRead fun v => .int (DsStr.len v), k⟩
   | getRange k a b => ⟨false, none, .bytes none, pan, decStrRead fun v => .bytes (DsStr.getRange v a b), k⟩
   | getBit k off => ⟨false, none, .int 0, pan, decStrRead fun v => .int (DsStr.getBit v off), k⟩
-  | incrBy k d neg => ⟨true, some .strNil, .unit, pan, decAddInt k d neg, k⟩
+  | incrBy k d neg => ⟨true, some (.str []), .unit, pan, decAddInt k d neg, k⟩
   | expireAt k ts => ⟨true, none, .int 0, fun s1 => (Api.applyExp s1 k ts, .int 1), decExpire k ts fun _ => true, k⟩
   | expireAtNX k ts => ⟨true, none, .int 0,
       fun s1 => if (fun e => decide (e = 0)) (Api.expOf s1 k) then (Api.applyExp s1 k ts, .int 1) else (s1, .int 0),
@@ -273,7 +273,7 @@ theorem ok (c : Cmd) (now : Int) (hc : c.WF) : (c.form now).OK := by
   cases c with
   | get k => exact ⟨fun _ => rfl, (fun _ h => nomatch h), (fun v _ _ _ => by cases v <;> trivial)⟩
   | set k v keep =>
-    refine ⟨(fun h => nomatch h), (fun w h => by cases h; exact good_strNil), fun w e _ _ => ?_⟩
+    refine ⟨(fun h => nomatch h), (fun w h => by cases h; exact good_str []), fun w e _ _ => ?_⟩
     show (decSet k v keep w e).GoodA
     unfold decSet
     apply goodA_strWrite
@@ -291,7 +291,7 @@ theorem ok (c : Cmd) (now : Int) (hc : c.WF) : (c.form now).OK := by
     obtain ⟨rfl, rfl, _, _⟩ := hx
     exact ⟨(fun w hw => by cases hw; exact good_str _), (fun e he => by cases keep <;> simp at he; subst he; decide)⟩
   | getSet k v =>
-    refine ⟨(fun h => nomatch h), (fun w h => by cases h; exact good_strNil), fun w e _ _ => ?_⟩
+    refine ⟨(fun h => nomatch h), (fun w h => by cases h; exact good_str []), fun w e _ _ => ?_⟩
     show (decGetSet k v w e).GoodA
     unfold decGetSet
     apply goodA_strWrite
@@ -300,7 +300,7 @@ theorem ok (c : Cmd) (now : Int) (hc : c.WF) : (c.form now).OK := by
     obtain ⟨rfl, rfl, _, _⟩ := hx
     exact ⟨(fun w hw => by cases hw; exact good_str _), (fun e he => by cases he; decide)⟩
   | append k v =>
-    refine ⟨(fun h => nomatch h), (fun w h => by cases h; exact good_strNil), fun w e _ _ => ?_⟩
+    refine ⟨(fun h => nomatch h), (fun w h => by cases h; exact good_str []), fun w e _ _ => ?_⟩
     show (decAppend k v w e).GoodA
     unfold decAppend
     apply goodA_strWrite
@@ -312,7 +312,7 @@ theorem ok (c : Cmd) (now : Int) (hc : c.WF) : (c.form now).OK := by
   | getRange k a b => exact ⟨fun _ => rfl, (fun _ h => nomatch h), (fun v _ _ _ => by cases v <;> trivial)⟩
   | getBit k off => exact ⟨fun _ => rfl, (fun _ h => nomatch h), (fun v _ _ _ => by cases v <;> trivial)⟩
   | incrBy k d neg =>
-    refine ⟨(fun h => nomatch h), (fun w h => by cases h; exact good_strNil), fun w e _ _ => ?_⟩
+    refine ⟨(fun h => nomatch h), (fun w h => by cases h; exact good_str []), fun w e _ _ => ?_⟩
     show (decAddInt k d neg w e).GoodA
     unfold decAddInt
     apply goodA_strWrite
